@@ -95,17 +95,18 @@ where
     kani::assert(rec.flushes == 0, "OBS c01.write_bits: does not flush the backend");
 
     let i: usize = kani::any();
-    kani::assume(i < t);
-    let expected = if i < p {
-        wpending_bit(le, buffer, p, i)
-    } else {
-        field_bit(le, v, n, i - p)
-    };
-    let actual = view_bit(le, &rec, buffer2, p2, i);
-    kani::assert(
-        expected == actual,
-        "OBS c01.write_bits: view' = view ++ field_E(v,n) (bit i of the canonical image)",
-    );
+    if i < t {
+        let expected = if i < p {
+            wpending_bit(le, buffer, p, i)
+        } else {
+            field_bit(le, v, n, i - p)
+        };
+        let actual = view_bit(le, &rec, buffer2, p2, i);
+        kani::assert(
+            expected == actual,
+            "OBS c01.write_bits: view' = view ++ field_E(v,n) (bit i of the canonical image)",
+        );
+    }
     kani::cover!(n == 64 && p == W::NBITS - 1, "c01.write_bits reachable (max span)");
     kani::cover!(n == 0, "c01.write_bits reachable (n = 0)");
 }
@@ -144,17 +145,18 @@ where
                 "OBS c01.write_unary: Inv_W and pending' = (pending+x+1) mod BITS",
             );
             let i: usize = kani::any();
-            kani::assume((i as u128) < t);
-            let expected = if i < p {
-                wpending_bit(le, buffer, p, i)
-            } else {
-                i as u128 == t - 1
-            };
-            let actual = view_bit(le, &rec, buffer2, p2, i);
-            kani::assert(
-                expected == actual,
-                "OBS c01.write_unary: view' = view ++ 0^x 1 (bit i of the canonical image)",
-            );
+            if (i as u128) < t {
+                let expected = if i < p {
+                    wpending_bit(le, buffer, p, i)
+                } else {
+                    i as u128 == t - 1
+                };
+                let actual = view_bit(le, &rec, buffer2, p2, i);
+                kani::assert(
+                    expected == actual,
+                    "OBS c01.write_unary: view' = view ++ 0^x 1 (bit i of the canonical image)",
+                );
+            }
         }
         Err(e) => {
             kani::assert(
@@ -163,16 +165,17 @@ where
             );
             // what was delivered is a prefix of the required image
             let i: usize = kani::any();
-            kani::assume(i < K * W::NBITS);
-            let expected = if i < p {
-                wpending_bit(le, buffer, p, i)
-            } else {
-                i as u128 == t - 1
-            };
-            kani::assert(
-                expected == image_bit(le, rec.words[i / W::NBITS], i % W::NBITS),
-                "OBS c01.write_unary: words delivered before a backend error are a prefix of view ++ 0^x 1",
-            );
+            if i < K * W::NBITS {
+                let expected = if i < p {
+                    wpending_bit(le, buffer, p, i)
+                } else {
+                    i as u128 == t - 1
+                };
+                kani::assert(
+                    expected == image_bit(le, rec.words[i / W::NBITS], i % W::NBITS),
+                    "OBS c01.write_unary: words delivered before a backend error are a prefix of view ++ 0^x 1",
+                );
+            }
         }
     }
     kani::cover!(r.is_ok() && rec.len == K, "c01.write_unary reachable (window filled, Ok)");
@@ -194,12 +197,13 @@ fn flush_effect<W: VW, const CAP: usize>(
     } else {
         kani::assert(rec.len == 1, "OBS c01.flush: pending bits => exactly one padded word");
         let i: usize = kani::any();
-        kani::assume(i < W::NBITS);
-        let expected = if i < p { wpending_bit(le, buffer, p, i) } else { false };
-        kani::assert(
-            expected == image_bit(le, rec.words[0], i),
-            "OBS c01.flush: delivered word = pending ++ zero padding",
-        );
+        if i < W::NBITS {
+            let expected = if i < p { wpending_bit(le, buffer, p, i) } else { false };
+            kani::assert(
+                expected == image_bit(le, rec.words[0], i),
+                "OBS c01.flush: delivered word = pending ++ zero padding",
+            );
+        }
     }
 }
 
